@@ -395,7 +395,7 @@ def bign_cases(tier):
                                                                     {"op": "merge", "J": [list(x) for x in J]}]})
     # larger matrices, longer structured histories (merge many pairs, delete a stripe, chain-merge through deleted cells,
     # merge everything that is left in two steps)
-    for n in (24, 40):
+    for n in (24, 40, 130, 260):
         for kind in ("asym", "sym"):
             pairs = [[2 * i, 2 * i + 1] for i in range(n // 4)]
             stripe = list(range(n // 2 + 1, n, 3))
